@@ -356,6 +356,18 @@ def bounded(ctx):
                     B.fail("length-variable-is-sizeof-array", case, f"length variable: {length_rhs!r}")
                 if ("const " in text.split(aname + "[")[0]) == no_const:
                     B.fail("layout-options-affect-formatting-only", case, "const modifier does not follow --no-const")
+                if n % 5 == 0:
+                    # history on ONE converter object (library use): preparing the text more than once, then writing the file, gives the same text every time
+                    try:
+                        kc = conv.KeyConverter(pem, out, atype, aname, ltype, lname, col, "", "", ind, tab, no_len, no_const)
+                        t1, t2 = kc.prepare_file_contents(), kc.prepare_file_contents()
+                        kc.generate_c_file()
+                        t3 = open(out).read()
+                        if not (t1 == t2 == t3 == text):
+                            B.fail("array-is-exact-public-key", dict(case, same_converter_used_three_times=True),
+                                   f"one KeyConverter gives different texts on repeated use: lengths {len(t1)}, {len(t2)}, {len(t3)} vs {len(text)} from a fresh converter")
+                    except Exception as e:  # noqa: BLE001
+                        B.fail("convert-succeeds", dict(case, same_converter_used_three_times=True), f"{type(e).__name__}: {e}")
                 lines = [l for l in text.splitlines() if l.strip().startswith("0x")]
                 if any(len(l.split(",")) - (1 if l.rstrip().endswith(",") else 0) > col for l in lines):
                     B.fail("layout-options-affect-formatting-only", case, "a row holds more than `columns` bytes")
